@@ -31,6 +31,8 @@ func (o respOp) String() string {
 		return fmt.Sprintf("Resp.Write(%q)", o.Data)
 	case "writestring":
 		return fmt.Sprintf("WriteString(%q)", o.Data)
+	case "abortstatus":
+		return fmt.Sprintf("AbortWithStatus(%d)", o.Code)
 	case "flush":
 		return "Flush"
 	case "error":
@@ -75,7 +77,18 @@ func (o respOp) apply(c *rux.Context) {
 	case "writestring":
 		c.WriteString(o.Data)
 	case "flush":
-		c.Resp.(http.Flusher).Flush()
+		func() {
+			// (with an underlying writer that is no http.Flusher the flush may panic after it has
+			// committed the header; the handler shields itself)
+			defer func() {
+				if rv := recover(); rv != nil {
+					recOf(c).Ev("flush-panicked")
+				}
+			}()
+			c.Resp.(http.Flusher).Flush()
+		}()
+	case "abortstatus":
+		c.AbortWithStatus(o.Code) // in the last handler of the chain: records the status, nothing left to stop
 	case "error":
 		http.Error(c.Resp, o.Data, o.Code)
 	case "redirect":
@@ -130,6 +143,7 @@ type respModel struct {
 	method    string
 	hasCT     bool // a Content-Type header has been set (http.Redirect writes its body only if none was)
 	errRec    bool // an error was recorded in the context (AddError, or a renderer whose write failed)
+	noFlusher bool // the underlying writer is no http.Flusher
 }
 
 func (m *respModel) status(code int) {
@@ -183,7 +197,13 @@ func (m *respModel) step(o respOp) {
 	case "write", "writestring":
 		m.write([]byte(o.Data))
 	case "flush":
-		m.flush()
+		if m.noFlusher {
+			m.commit() // the commit happens, the flush itself cannot reach the underlying writer
+		} else {
+			m.flush()
+		}
+	case "abortstatus":
+		m.status(o.Code)
 	case "error":
 		m.hasCT = true
 		m.status(o.Code)
@@ -275,6 +295,7 @@ type c08Prog struct {
 	OnError   []respOp // nil = no OnError hook; else what the hook does (may be empty)
 	HasHook   bool
 	ReaderFrom bool     // the underlying writer implements io.ReaderFrom
+	NoFlusher  bool     // the underlying writer is no http.Flusher
 	Redispatch []respOp // what the handler of /y does when the (single) handler re-dispatches
 }
 
@@ -298,6 +319,9 @@ func (p c08Prog) describe() any {
 	}
 	if p.ReaderFrom {
 		hs = append(hs, "underlying writer implements io.ReaderFrom")
+	}
+	if p.NoFlusher {
+		hs = append(hs, "underlying writer is no http.Flusher")
 	}
 	return map[string]any{"method": p.Method, "handlers": hs, "writer_fault": fmt.Sprintf("write #%d accepts %d bytes then errors (0 = none)", p.FailAt, p.Short)}
 }
@@ -444,6 +468,16 @@ func runC08(e *Env) {
 			p.Post = append(p.Post, genOps(1))
 		}
 		p.ReaderFrom = chance(r, 1, 3)
+		if !p.ReaderFrom && chance(r, 1, 5) {
+			p.NoFlusher = true
+		}
+		if chance(r, 1, 5) {
+			// the main (last) handler answers through AbortWithStatus(code): a status setting like any other
+			i := r.IntN(len(p.Pre[nh-1]) + 1)
+			ab := respOp{Kind: "abortstatus", Code: pick(r, []int{401, 403, 404, 500})}
+			p.Pre[nh-1] = append(p.Pre[nh-1][:i:i], append([]respOp{ab}, p.Pre[nh-1][i:]...)...)
+			t.Count("programs.abort_with_status_in_main", 1)
+		}
 		if nh == 1 && !fault && chance(r, 1, 4) {
 			// a single-handler chain that re-dispatches the context to another route
 			p.NGlobal = 0
@@ -577,12 +611,20 @@ func c08Check(t *T, p c08Prog) {
 		t.Count("programs.readerfrom_writer", 1)
 		w = RecRF{rec}
 	}
+	if p.NoFlusher {
+		t.Count("programs.no_flusher_writer", 1)
+		w = RecNF{rec}
+	}
 	if pv, panicked := catch(func() { r.ServeHTTP(w, NewReq(p.Method, "/x")) }); panicked {
 		t.Fail("servehttp-panic", "program %v panicked: %v", p.describe(), pv)
 		return
 	}
 
-	m := &respModel{failAt: p.FailAt, short: p.Short, method: p.Method}
+	if !p.NoFlusher && hasEvent(rec.Events, "flush-panicked") {
+		t.Fail("flush-panics", "program %v: Flush panicked although the underlying writer is an http.Flusher", p.describe())
+		return
+	}
+	m := &respModel{failAt: p.FailAt, short: p.Short, method: p.Method, noFlusher: p.NoFlusher}
 	for _, o := range order {
 		switch o.Kind {
 		case "redispatch-begin":
